@@ -7,6 +7,7 @@ import (
 	"reflect"
 	"strings"
 	"time"
+	"unicode/utf8"
 
 	"git.sr.ht/~rockorager/vaxis/ansi"
 	"git.sr.ht/~rockorager/vaxis/simrt"
@@ -374,8 +375,12 @@ func (w *parserWorld) feeder() {
 		if c.NudgeEOF {
 			w.rd.finish(io.EOF, false)
 		} else {
-			w.rd.push([]byte("\x1b[?1;2c"), off+7)
-			// the reader stays open: only Close() may stop the parser
+			// the reader returns once more and then stays open and silent:
+			// only Close() may stop the parser. What it returns may end in
+			// the middle of a multi-byte character or of a sequence
+			nudges := []string{"\x1b[?1;2c", "\x1b[A\xe2", "x\xf0\x9f", "\x1b[?1;2c\xc3", "a", "\x1b[A\x1b["}
+			nd := nudges[w.s.Tape.Draw(len(nudges))]
+			w.rd.push([]byte(nd), off+len(nd))
 		}
 	}
 	w.feederDone = true
@@ -879,7 +884,19 @@ func compareItems1(actual []ansi.Sequence, ref []simterm.Item, bounds map[int]bo
 					if rawAdj {
 						so = -2
 					}
-					if so != -2 && (so < 0 || !bounds[so]) {
+					// at a read boundary, or in front of the character the
+					// read boundary cuts in two (the pieces can only be
+					// separated between characters)
+					atBoundary := so >= 0 && bounds[so]
+					if so >= 0 && !atBoundary {
+						_, sz := utf8.DecodeRuneInString(T[endByte:])
+						for j := 1; j < sz; j++ {
+							if bounds[so+j] {
+								atBoundary = true
+							}
+						}
+					}
+					if so != -2 && !atBoundary {
 						return fmt.Sprintf("text %q: Print(%q) splits grapheme cluster %q away from any read boundary", T, g, cluster)
 					}
 				default:
